@@ -43,6 +43,14 @@ def gen_attrs(rng, st) -> list:
         if a['name'] not in names:
             names.add(a['name'])
             res.append(a)
+    if res and st['tns'] is not None and rng.random() < 0.12:
+        # the same local name twice, once in the target namespace and once in no namespace (two different
+        # attributes: only the prefix tells them apart in the decoded data)
+        twin = dict(rng.choice(res))
+        twin['qualified'] = not twin['qualified']
+        twin['type'] = gen_simple(rng, allow_list=False)
+        twin['use'] = 'optional'
+        res.append(twin)
     return res
 
 
